@@ -81,5 +81,50 @@ def lrComplete (g : Grammar) (T : Table) (I : Nat → List VItem) (F : FirstData
   hasItem (I 0) 0 0 [] &&
   (List.range T.n).all (fun s => (I s).all (itemOK g T I F s))
 
+/-! ### Soundness of the item sets (correct-prefix property)
+
+The converse check: every item of a state is *justified* — a kernel item (dot > 0) by the item
+before the dot in **every** predecessor state, an initial item (dot = 0) by the LR(0) closure of the
+state's kernel (of the start item in state 0). With it, the symbols along any path of the automaton
+begin a sentential form (`Proofs/LRViable.lean`). -/
+
+/-- LR(0) closure of a list of (production, dot) pairs, `fuel` rounds. -/
+def closeRound (g : Grammar) (its : List (Nat × Nat)) : List (Nat × Nat) :=
+  its ++ its.flatMap (fun (pd : Nat × Nat) =>
+    match g.prod? pd.1 with
+    | none => []
+    | some pr =>
+      match pr.rhs[pd.2]? with
+      | some (.nt B) =>
+        (List.range g.prods.length).filterMap (fun q =>
+          match g.prod? q with
+          | some pq => if pq.lhs = B then some (q, 0) else none
+          | none => none)
+      | _ => [])
+
+def closeIter (g : Grammar) : Nat → List (Nat × Nat) → List (Nat × Nat)
+  | 0, its => its
+  | n + 1, its => closeIter g n (closeRound g its).eraseDups
+
+def itemSoundOK (g : Grammar) (T : Table) (I : Nat → List VItem) (s : Nat) (it : VItem) : Bool :=
+  match g.prod? it.prod with
+  | none => false
+  | some pr =>
+    decide (it.dot ≤ pr.rhs.length) &&
+    (if it.dot = 0 then
+      let kernel := ((I s).filter (fun k => k.dot != 0)).map (fun k => (k.prod, k.dot)) ++
+        (if s = 0 then [(0, 0)] else [])
+      (closeIter g (g.prods.length + 1) kernel).contains (it.prod, 0)
+    else
+      decide (s ≠ 0) &&
+      (List.range T.n).all (fun s0 => !T.edge s0 s ||
+        (I s0).any (fun k => k.prod == it.prod && k.dot + 1 == it.dot &&
+          pr.rhs[k.dot]? == some (T.sym s))))
+
+/-- The item sets are sound. -/
+def lrSound (g : Grammar) (T : Table) (I : Nat → List VItem) : Bool :=
+  decide (0 < T.n) && (g.prod? 0).isSome &&
+  (List.range T.n).all (fun s => !(I s).isEmpty && (I s).all (itemSoundOK g T I s))
+
 end LRV
 end Pg
